@@ -80,3 +80,17 @@ func zzH_C04_redis() {
 		zzAssert(got[0] == wantFirst[idx] && got[1] == "INFO", "the events carry the commands sent, in order")
 	}
 }
+
+// C01+C09/bytes-redis: any N bytes followed by the client going away.
+func zzH_C09_bytes_redis() {
+	n := zzLen(0, zzParam("N", 3))
+	data := zzBytes(n)
+	s := &redisService{}
+	s.SetChannel(&zzRRec{})
+	base := zzLive()
+	zzUnwindIn("redis", 4*n+8, true)
+	zzDidPanic(func() { s.Handle(context.Background(), &zzRCut{data: data, cut: n}) })
+	zzUnwindIn("", 0, false)
+	zzQuiesce()
+	zzAssert(zzLive() == base, "no goroutine created on the connection's behalf outlives the handler")
+}
